@@ -1,7 +1,7 @@
 from _common import COMMON_NOTE
 
 META = {'title': 'Displayed picture is the standard decode of the ULA-visible screen memory',
- 'lean_modules': ['ZxVerif.Props.C08'],
+ 'lean_modules': ['ZxVerif.Props.C08', 'ZxVerif.Props.C08Sys'],
  'modelled_code': ['rustzx-core/src/utils/screen.rs',
                    'rustzx-core/src/zx/video/screen.rs',
                    'rustzx-core/src/zx/video/colors.rs',
@@ -32,7 +32,12 @@ META = {'title': 'Displayed picture is the standard decode of the ULA-visible sc
                'of the visible RAM bank for all contents and all wait partitions, flash swaps every 16 frames, the '
                'screen cache equals RAM after every operation list (false for execute_poke: negation proved on a '
                'witness, partial theorem without screen pokes, full theorem for the repaired variant), before/after '
-               'the beam. The model is tied to the Rust code on every run by a correspondence check through a real '
+               'the beam. Whole-program form (Props/C08Sys, Z80 reference on a bus whose primitives are the controller '
+               'operations of this model, by the closure theorem over every instruction): after every program on both '
+               'machines the state is well formed, the screen cache equals RAM (both screens on the 128K) and the '
+               'renderer is level with the clock; a completed frame no program write touched is exactly stdDecode of '
+               'the displayed bank, and a CPU write before/after the beam shows in this/the next frame whatever the '
+               'program does besides. The model is tied to the Rust code on every run by a correspondence check through a real '
                'Emulator with recording frame buffers, the executable stdDecode adjudicating.',
  'level_note': COMMON_NOTE + ' The two address tables (6144 entries each) are proved by `decide +kernel` (kernel '
                'evaluation, no native axiom). Partial: the correspondence is sampled (seeded), not exhaustive; '
